@@ -240,7 +240,7 @@ theorem testWord_idle (cfg : ScanCfg) (σ : Scanner) (tok : Tok) (hn : σ.parser
   | none => rfl
   | some prev => simp [hn]
 
-theorem testWord_cases (cfg : ScanCfg) (σ : Scanner) (tok : Tok) :
+theorem testWord_cases_reset (cfg : ScanCfg) (σ : Scanner) (tok : Tok) :
     Scanner.testWord cfg σ tok = tok.lower ∨
       (Scanner.testWord cfg σ tok = [','] ∧ ∃ prev, cfg.sep tok prev = true) := by
   unfold Scanner.testWord
@@ -319,7 +319,7 @@ theorem push_hardBreaker (cfg : ScanCfg) (hl : LangOk cfg.lang) (hf : cfg.lang.E
       · exact absurd hc hnan
       · -- the word handed to the parser is refused
         have hw : ∃ e, (σ.parser.push cfg.lang (Scanner.testWord cfg σ tok)).1 = some e ∧ e ≠ Err.incomplete := by
-          rcases testWord_cases cfg σ tok with hw | ⟨hw, prev, hprev⟩
+          rcases testWord_cases_reset cfg σ tok with hw | ⟨hw, prev, hprev⟩
           · rw [hw]; exact hrej σ.parser
           · rw [hw]
             rcases hsep with hsep | hsep
